@@ -52,7 +52,7 @@ def impl(case):
     sys.setrecursionlimit(220)
     try:
         n_ops, n_obs = run_one(case, case.get("nmcls", "mixin"))
-        l_ops, l_obs = run_one(case, "lighteq" if case.get("nmcls") == "eqmixin" else "light")
+        l_ops, l_obs = run_one(case, {"eqmixin": "lighteq", "falsymixin": "lightfalsy"}.get(case.get("nmcls"), "light"))
     finally:
         sys.setrecursionlimit(old)
     return {"nm": n_ops, "light": l_ops, "nm_obs": n_obs, "light_obs": l_obs}
